@@ -844,7 +844,7 @@ def m_iter_any(I, st, args, c, dest, target, span):
     I.store(st, itref.root, itref.path + proto["cursor_path"], VOpaque("consumed-iterator"), span)
     if cur.variant == "None":
         return VBool(False)
-    start = State.node_of_id(cur.get("0"))
+    start = st.node_of_id(cur.get("0"))
     if start is None:
         raise Undecided("iterator cursor is not a node id")
     f = args[1]
